@@ -130,6 +130,7 @@ func c36(c *core.Ctx) {
 		if fl == nil {
 			continue
 		}
+		g.mutex = c.P.FieldPath(g.mutex) // the name the mutex field has today
 		hbOK, hbWhy := writtenOnlyBeforeGoroutines(c, fl)
 		for _, f := range fns {
 			for _, a := range ssax.FieldAccesses(f, fl) {
